@@ -199,18 +199,16 @@ KnownFinding(stmts, clause) ==
 PlacesFarApart(stmts) == \E i, j \in DOMAIN stmts : stmts[i].k = "place" /\ stmts[j].k = "place" /\ stmts[i].x.k = "num" /\ stmts[j].x.k = "num"
                             /\ (stmts[i].x.v - stmts[j].x.v >= 8 \/ stmts[i].y.v - stmts[j].y.v >= 8)
 (* KF-C18-sparse-poles: for a few programs with scattered user-placed consumers the trimmed pole grid leaves two clusters without   *)
-(* a copper connection (pole spacing > reach after trimming).  Identified by the exact witness programs (closed corpus); the same  *)
-(* clause on any other program is a violation.                                                                                    *)
-SparsePoleWitnesses == {
-   "Signal a = (\"signal-A\", 5);\nSignal b = (\"signal-B\", 2);\nEntity e = place(\"train-stop\", 0, 0);\ne.enable = 4 > a;\n",
-   "Signal a = (\"signal-A\", 5);\nSignal b = (\"signal-B\", 2);\nEntity e = place(\"train-stop\", 0, 0);\ne.enable = a > 3 : b;\n",
-   "Signal a = (\"signal-A\", 5);\nfor i in [1, 5, -4] {\n    Entity e = place(\"small-lamp\", i * 2, 0);\n    e.enable = a > i;\n}\n"}
+(* a copper connection (pole spacing > reach after trimming).  Identified by GEOMETRY (clause C18_grid_gap, Paste!BridgeableGap):  *)
+(* clusters out of each other's reach whose nearest poles are diagonal lattice neighbours; poles that could be wired and are not,  *)
+(* or clusters farther apart, stay C18_one_grid.                                                                                  *)
 KnownFindingR(rec, clause) ==
   LET poles == IF "poles" \in DOMAIN rec THEN rec.poles ELSE "" IN
   IF clause = "C18_powered" /\ poles = "big" THEN "KF-C18-big-supply"
   ELSE IF clause = "C08_wire_reach" /\ poles = "small" THEN "KF-C08-small-pole-span"
   ELSE IF clause = "C18_one_grid" /\ poles # "" /\ PlacesFarApart(rec.stmts) THEN "KF-C18-split-grid"
-  ELSE IF clause = "C18_one_grid" /\ poles # "" /\ "src" \in DOMAIN rec /\ rec.src \in SparsePoleWitnesses THEN "KF-C18-sparse-poles"
+  ELSE IF clause = "C18_grid_gap" /\ poles # "" /\ PlacesFarApart(rec.stmts) THEN "KF-C18-split-grid"
+  ELSE IF clause = "C18_grid_gap" /\ poles # "" THEN "KF-C18-sparse-poles"
   ELSE IF clause = "C18_powered_outside" /\ poles # "" THEN "KF-C18-grid-before-layout"
   ELSE IF clause = "C18_one_grid" /\ poles # "" /\ ~(\E i \in DOMAIN rec.stmts : rec.stmts[i].k \in {"place", "for", "func"}) THEN "KF-C18-grid-before-layout"
   ELSE KnownFinding(rec.stmts, clause)
